@@ -618,6 +618,14 @@ impl World {
             }
         }
 
+        // a handle dropped by a callback is gone in the model too, whatever the outcome of the call
+        if let Some((slot, true)) = self.last_fx {
+            if self.slots[slot as usize].is_none() {
+                self.model[slot as usize] = None;
+            }
+        }
+        self.last_fx = None;
+
         // ---- slot liveness agreement
         for i in 0..SLOTS {
             if self.slots[i].is_some() != self.model[i].is_some() {
